@@ -5,6 +5,10 @@ V = os.path.dirname(os.path.dirname(os.path.abspath(__file__)))
 props = [json.loads(l) for l in open(os.path.join(V, "properties.jsonl"))]
 
 CLAIMED = {
+ "C03": dict(
+  technique="model-based generation from grammar G with rapid; parse result compared field by field with the model the text was rendered from",
+  text="Journals are generated as structures (transactions, postings, exact quantities, directives) and rendered to text with generated spellings (date separators, description classes, number notations, sign and commodity placement, spacing, LF/CRLF). parser.Parse must report no error, the server must publish no diagnostic without a code, and every field of the extracted tree (dates, status, code, description/payee/note, accounts, exact quantities, commodities and side, costs, assertions, comments, tags, directive payloads with formats compared semantically, include paths, counts) must equal the model.",
+  note="The oracle for 'supported' is grammar G of DESIGN.md 4.2 (intersection of the property text, docs/hledger.md and ast/types.go); numbers with one mark and exactly three following digits are not generated (project and hledger disagree). The expected tree is known by construction, not by another parser."),
  "C13": dict(
   technique="enumerated and rapid-sampled schedules: permuted start order of background analyses (verif hook) and permuted release order of parked PublishDiagnostics calls, final publication compared with a fresh server",
   text="The harness owns the schedule at the two points that decide which publication is last: each background analysis is held at the diag.start hook and run to completion in a chosen order, or all PublishDiagnostics calls are parked in the client stub and released in a chosen order. For bursts of 2..4 changes (one or two documents, full and ranged changes, versions with pairwise different diagnostics) every permutation is enumerated in both modes; bursts of 5 are sampled by rapid. After the burst and quiescence the last publication per document must equal what a fresh server publishes for the final text.",
